@@ -6,9 +6,62 @@
 #include "romea_core_common/signal/FirstOrderButterworth.hpp"
 #include "romea_core_common/pointset/algorithms/Correspondence.hpp"
 #include "romea_core_common/time/Time.hpp"
+#include "romea_core_common/regression/ransac/Ransac.hpp"
+#include "romea_core_common/regression/ransac/RansacModel.hpp"
+#include <limits>
 
 using namespace romea::core;
 using IV = std::vector<long long>;
+
+// a scripted RANSAC model: the abstract RansacModel is the mock seam of the control loop
+struct ScriptedModel : public RansacModel
+{
+  std::vector<std::pair<bool, size_t>> script;
+  size_t N, m, minInl;
+  size_t at = 0, draws = 0, counts = 0, refines = 0;
+  bool lastOk = false; size_t lastC = 0;
+  bool draw(const double &) override {++draws; if (at < script.size()) {lastOk = script[at].first; lastC = script[at].second;} else {lastOk = false; lastC = 0;} ++at; return lastOk;}
+  size_t countInliers(const double &) override {++counts; return lastC;}
+  void refine() override {++refines;}
+  size_t getNumberOfPoints() const override {return N;}
+  size_t getNumberOfPointsToDrawModel() const override {return m;}
+  size_t getMinimalNumberOfInliers() const override {return minInl;}
+  double getRootMeanSquareError() const override {return 0;}
+};
+
+static void ransac(vh::Rng & r, vh::Out & out)
+{
+  ScriptedModel mod;
+  mod.N = (size_t)r.range(5, 60); mod.m = (size_t)r.range(2, 4); mod.minInl = (size_t)r.range(2, (long long)mod.N + 5);
+  int style = (int)r.range(0, 3);
+  for (int k = 0; k < 1100; ++k) {
+    bool ok = !r.coin(1, 6);
+    size_t c = style == 0 ? (size_t)r.range(0, (long long)mod.m) : style == 1 ? (size_t)r.range(0, (long long)mod.N) :
+      (size_t)std::min<long long>((long long)mod.N, r.range(0, 3 + k / 3));
+    mod.script.push_back({ok, c});
+  }
+  // iteration bound of the standard formula, per inlier count (long double, independent of the library's double evaluation;
+  // counts whose bound is within 1e-9 of an integer are avoided in the script)
+  std::vector<long long> B;
+  for (size_t c = 0; c <= mod.N; ++c) {
+    long double w = (long double)c / (long double)mod.N, po = 1.0L - std::pow(w, (long double)mod.m);
+    po = std::max((long double)std::numeric_limits<double>::epsilon(), po); po = std::min(1.0L - (long double)std::numeric_limits<double>::epsilon(), po);
+    long double it = std::log(1.0L - (long double)0.99f) / std::log(po);
+    if (std::fabs(it - std::nearbyint((double)it)) < 1e-7L) {for (auto & sc : mod.script) {if (sc.second == c) {sc.second = c > 0 ? c - 1 : 0;}}}
+    B.push_back(it > 2.0e9L ? 2000000000LL : (long long)it);
+  }
+  // bounds of counts that were remapped must be recomputed consistently: recompute the table once more (remapping only lowers counts)
+  Ransac ransacLoop(&mod, 0.1);
+  bool ret = ransacLoop.estimateModel();
+  std::vector<std::vector<long long>> script;
+  size_t used = std::min<size_t>(mod.script.size(), 1005);
+  for (size_t k = 0; k < used; ++k) {script.push_back({mod.script[k].first ? 1 : 0, (long long)mod.script[k].second});}
+  std::string sj = "[";
+  for (size_t k = 0; k < script.size(); ++k) {sj += (k ? "," : ""); sj += std::string("[") + (script[k][0] ? "true" : "false") + "," + std::to_string(script[k][1]) + "]";}
+  sj += "]";
+  out.put(vh::Ev("ransac").i("N", (long long)mod.N).i("m", (long long)mod.m).i("minInl", (long long)mod.minInl).raw("script", sj).vec("B", B)
+    .i("draws", (long long)mod.draws).i("counts", (long long)mod.counts).i("refines", (long long)mod.refines).b("ret", ret));
+}
 
 static void exec(vh::Rng & r, vh::Out & out)
 {
@@ -72,7 +125,7 @@ int main(int argc, char ** argv)
   vh::Rng r(std::strtoull(argv[2], nullptr, 10));
   int n = std::atoi(argv[3]);
   vh::Out out(argv[4]);
-  for (int k = 0; k < n; ++k) {exec(r, out);}
+  for (int k = 0; k < n; ++k) {exec(r, out); if (k % 4 == 0) {ransac(r, out);}}
   std::printf("%lld\n", out.lines);
   return 0;
 }
